@@ -12,7 +12,7 @@ ASSUMPTIONS = ["at least one row and one column (NumPy raises on an empty axis i
 
 def do_case(ctx, inp):
     p = inp["p"]
-    g = real_poly(p)
+    g = real_poly(p, ids=inp.get("ids"))
     nontriv = any(abs(c) > 1 for _, cs in p["rows"] for c in cs) or any(b != [0, 1] for b in p["bnds"])
     tg = set()
     if any(lo == hi for lo, hi in p["bnds"]): tg.add("degenerate-column")
@@ -89,4 +89,12 @@ def run(ctx):
     n = (1200 if ctx.quick else 6000) * (3 if ctx.search else 1)
     for _ in range(n):
         r = ctx.rng.random()
-        do_case(ctx, {"p": gen_poly(ctx.rng, ctx.quick, wide="all" if r < 0.04 else r < 0.27)})
+        case = {"p": gen_poly(ctx.rng, ctx.quick, wide="all" if r < 0.04 else r < 0.27)}
+        nc_ = len(case["p"]["bnds"])
+        if nc_ >= 2 and ctx.rng.random() < 0.08:
+            # columns are what they are by position: two columns may carry the same label (with bounds of their own)
+            ids = [f"x{j}" for j in range(nc_)]
+            j1, j2 = ctx.rng.sample(range(nc_), 2)
+            ids[j2] = ids[j1]
+            case["ids"] = ids
+        do_case(ctx, case)
